@@ -89,6 +89,9 @@ func protoTables(p *Prog, r *Report, R string) {
 }
 
 func runC15(p *Prog, r *Report) {
+	r.Describe("C15.8/header-split-order", "receivers that split the leading word(s) of the body into the header take the header first, then advance the body")
+	headerSplitOrder(p, r, "C15.8/header-split-order", func(rel string) bool { return strings.HasPrefix(rel, "protocol/") })
+	r.Floor("C15.8/header-split-order", "wire.header_splits", 2)
 	r.Describe("C15.1/handshake-image", "the bytes sent are 00 'S' 'P' 00 <Self big-endian 16> 00 00, derived from the struct layout, the literal and the byte order; read back the same way; sent before waiting")
 	handshakeImage(p, r, "C15.1/handshake-image")
 	r.Describe("C15.2/handshake-validation", "success iff all six header fields have their required value; failures close the connection and are never reported as ErrClosed; only the handshaker's worker runs the handshake")
